@@ -1,6 +1,7 @@
 package verifrt
 
 import (
+	"sync"
 	"cmp"
 	"fmt"
 	"iter"
@@ -13,7 +14,11 @@ func chanPtr[T any](c <-chan T) uintptr { return *(*uintptr)(unsafe.Pointer(&c))
 
 // Send performs c <- v as a scheduling point followed by the real operation.
 func Send[T any](pos string, c chan<- T, v T) {
-	e := current()
+	e := cur.Load()
+	if e == nil {
+		c <- v
+		return
+	}
 	g := e.self()
 	p := *(*uintptr)(unsafe.Pointer(&c))
 	o := &op{kind: OpSend, pos: pos, chptr: p, obj: e.objFor(p, c, g, pos)}
@@ -45,7 +50,11 @@ func Recv[T any](pos string, c <-chan T) T {
 
 // Recv2 performs v, ok := <-c.
 func Recv2[T any](pos string, c <-chan T) (T, bool) {
-	e := current()
+	e := cur.Load()
+	if e == nil {
+		v, ok := <-c
+		return v, ok
+	}
 	g := e.self()
 	p := chanPtr(c)
 	o := &op{kind: OpRecv, pos: pos, chptr: p, obj: e.objFor(p, c, g, pos)}
@@ -67,7 +76,13 @@ func Recv2[T any](pos string, c <-chan T) (T, bool) {
 
 // Close performs close(c) and records the channel as closed for the readiness model.
 func Close[T any](pos string, c chan<- T) {
-	e := current()
+	e := cur.Load()
+	if e == nil {
+		// package initialisation: remember the channel as closed for later executions
+		preClosed.Store(*(*uintptr)(unsafe.Pointer(&c)), c)
+		close(c)
+		return
+	}
 	g := e.self()
 	p := *(*uintptr)(unsafe.Pointer(&c))
 	o := &op{kind: OpClose, pos: pos, chptr: p, obj: e.objFor(p, c, g, pos)}
@@ -97,7 +112,10 @@ func closeTracked[T any](e *Exec, c chan T) {
 
 // Len performs len(c) on a channel (a racy read that the code under test branches on).
 func Len[T any](pos string, c <-chan T) int {
-	e := current()
+	e := cur.Load()
+	if e == nil {
+		return len(c)
+	}
 	g := e.self()
 	p := chanPtr(c)
 	o := &op{kind: OpLen, pos: pos, chptr: p, obj: e.objFor(p, c, g, pos)}
@@ -228,6 +246,9 @@ func (e *Exec) chanReady(send bool, ch reflect.Value, ptr uintptr, self *G) bool
 	if o := e.objs[ptr]; o != nil && o.closed {
 		return true
 	}
+	if _, ok := preClosed.Load(ptr); ok {
+		return true
+	}
 	if send {
 		if ch.Len() < ch.Cap() {
 			return true
@@ -272,7 +293,10 @@ func (s *Sel) readyCases(e *Exec) []int {
 // Choose is the scheduling point of the select; it performs the chosen communication
 // and returns the index of the clause to run (-1 = default).
 func (s *Sel) Choose() int {
-	e := current()
+	e := cur.Load()
+	if e == nil {
+		return s.choosePlain()
+	}
 	g := e.self()
 	o := &op{kind: OpSelect, pos: s.pos, sel: s}
 	for i := range s.cases {
@@ -362,4 +386,29 @@ func SelVal2[T any](s *Sel, c <-chan T) (T, bool) {
 		reflect.ValueOf(&out).Elem().Set(s.recv)
 	}
 	return out, s.recvOK
+}
+
+// preClosed holds channels closed during package initialisation (outside any execution).
+var preClosed sync.Map
+
+// choosePlain performs the select outside a controlled execution (package init).
+func (s *Sel) choosePlain() int {
+	cs := make([]reflect.SelectCase, 0, len(s.cases)+1)
+	for _, c := range s.cases {
+		if c.send {
+			cs = append(cs, reflect.SelectCase{Dir: reflect.SelectSend, Chan: c.ch, Send: c.val})
+		} else {
+			cs = append(cs, reflect.SelectCase{Dir: reflect.SelectRecv, Chan: c.ch})
+		}
+	}
+	if s.hasDefault {
+		cs = append(cs, reflect.SelectCase{Dir: reflect.SelectDefault})
+	}
+	i, v, ok := reflect.Select(cs)
+	if i == len(s.cases) {
+		s.chosen = -1
+		return -1
+	}
+	s.chosen, s.recv, s.recvOK = i, v, ok
+	return i
 }
